@@ -20,7 +20,20 @@ from outrank.algorithms.sketches.counting_counters_ordinary import PrimitiveCons
 
 
 def mkitem(spec):
+    if spec[0] == "l":       # ["l", ch, n, tail]: a long str key, ch * n + tail, given by its generator parameters
+        return spec[1] * spec[2] + spec[3]
     return spec[1]
+
+
+def expand(cell):
+    return mkitem(cell) if isinstance(cell, list) else cell
+
+
+def desc(v):
+    """Long strings travel as a descriptor (length, first and last 8 characters)."""
+    if isinstance(v, str) and len(v) > 200:
+        return "\x00long:%d:%s:%s" % (len(v), v[:8], v[-8:])
+    return v
 
 
 def run_cms(case):
@@ -76,7 +89,12 @@ def run_counter(case):
                 c.add(items[op[1]])
             else:
                 c.batch_add([items[i] for i in op[1]])
-            obs.append([[index[k], int(v)] for k, v in c.default_counter.items()])
+            unknown = {}
+            row = []
+            for k, v in c.default_counter.items():      # a key that was never fed gets a fresh id beyond the case's items
+                i = index[k] if k in index else unknown.setdefault(k, len(items) + len(unknown))
+                row.append([i, int(v)])
+            obs.append(row)
     except Exception as e:
         err = "%s: %s" % (type(e).__name__, e)
     return {"ok": err is None, "error": err, "obs": obs}
@@ -88,7 +106,7 @@ class _Bar:
 
 
 def _key(k):
-    return k if isinstance(k, str) else int(k)
+    return desc(k) if isinstance(k, str) else int(k)
 
 
 def run_pipeline(case):
@@ -101,7 +119,7 @@ def run_pipeline(case):
     err = None
     try:
         for batch in case["batches"]:
-            df = pd.DataFrame(batch)
+            df = pd.DataFrame({col: [expand(v) for v in vals] for col, vals in batch.items()})
             cr.compute_cardinalities(df, _Bar(), case["bound"])
             obs.append({col: [[_key(k), int(v)] for k, v in cr.GLOBAL_COUNTS_STORAGE[col].default_counter.items()]
                         for col in df.columns})
